@@ -114,6 +114,21 @@ def run(ctx):
                         if complex(lo).imag != 0: viol(f'C19:nonhermitian:real:{tag}', 'complex-adjoint variant: eigenvalue of a Hermitian matrix is not real', inp, lo)
                         if abs(abs(complex(lo).real) - abs(l1)) > 1e-8 * abs(l1): viol(f'C19:nonhermitian:modulus:{tag}', 'complex-adjoint variant: |eigenvalue| is not |lambda_max|', inp, lo, l1)
                     except Exception as ex: viol(f'C19:nonhermitian:raises:{tag}', f'power_iteration_nonhermitian raised {ex!r}', inp)
+                    # the same matrix held as a SparseQuaternionMatrix (the library product dispatches on the storage): same contract
+                    if sc == 1.0 and n >= 2 and seed <= 1:
+                        from scipy import sparse as _sp
+                        Asp = utils.SparseQuaternionMatrix(*[_sp.csr_matrix(c) for c in np.moveaxis(quaternion.as_float_array(An), -1, 0)], An.shape)
+                        try: vs, es, _, _ = call_pi(Asp, seed, 5000, 1e-10)
+                        except Exception as ex: viol(f'C19:raises:hermitian:sparse:{sname}', f'power_iteration raised {ex!r} for sparse storage', inp); vs = None
+                        if vs is not None:
+                            vs = np.asarray(vs); lam_s = mmq(mmq(hq(vs), An), vs)[0, 0].w
+                            if vs.shape != (n, 1) or abs(fro(vs) - 1) > 1e-12: viol(f'C19:unit:hermitian:sparse:{sname}', 'sparse storage: returned vector is not an n x 1 unit vector', inp)
+                            else:
+                                if es > abs(l1) * (1 + 1e-9): viol(f'C19:bounded:hermitian:sparse:{sname}', f'sparse storage: estimate {es!r} exceeds the spectral norm {abs(l1)!r}', inp, es, abs(l1))
+                                if abs(es - abs(l1)) > 1e-8 * abs(l1): viol(f'C19:converge:estimate:sparse:{sname}', f'sparse storage: estimate {es!r} is not |lambda_max| = {abs(l1)!r}', inp, es, abs(l1))
+                                if abs(es - abs(lam_s)) > 1e-9 * abs(l1): viol(f'C19:estimate-is-rayleigh:sparse:{sname}', 'sparse storage: returned estimate is not |v^H A v|', inp, es, abs(lam_s))
+                                if fro(mmq(An, vs) - vs * lam_s) > 1e-5 * abs(l1): viol(f'C19:converge:eigenvector:sparse:{sname}', 'sparse storage: returned vector is not an eigenvector', inp)
+                            ctx.count(('converge-sparse', n, sname, seed), True)
                     ctx.count(('converge', n, sname, scn, seed), True)
     # ---- "from every random start": the dominant eigenvector orthogonal to the all-ones vector (and to the coordinate vectors e_1, e_n) -- a fixed
     # start vector would never acquire a component along it.  A = l2 I + (l1 - l2) v v^H with v = (i, -i, j, -j)/2 embedded in dimension n
